@@ -234,6 +234,11 @@ class Tr:
         self.cls = None          # ast.ClassDef of the function being translated
         self.depth = 0
         self.cur = None          # FunctionDef being translated (for def-use look-ups of locals)
+        self.ctx = None          # def-use context (function + parameter bindings) of what is being translated
+        self.root_fn = None      # the LISTED function being translated (helpers are inlined into it)
+        self.call_stack = []     # positions of the helper calls being inlined (outermost first)
+        self.dull = set()        # (helper, root) pairs found not worth inlining
+        self.loop_bodies = {}    # loop site -> its body term
         self.roles = {}          # site id -> role (see ROLE_NAMES)
         self.no_raise = []
         self.unknowns = []
@@ -247,6 +252,8 @@ class Tr:
     def gen_cm(self, fn, qual, lean, cls=None):
         """translate an @contextmanager generator as a Lean function of the with-body"""
         saved = (self.fn, self.types, self.cls, self.cur)
+        saved_ctx = self.ctx
+        self.ctx = self.new_ctx(fn)
         self.fn = qual
         self.cur = fn
         self.types = self.infer_types(fn, {})
@@ -259,6 +266,7 @@ class Tr:
             term = self.block(_body(fn), yield_body='body')
         self.gen_plain[lean] = plain
         self.fn, self.types, self.cls, self.cur = saved
+        self.ctx = saved_ctx
         return (lean, qual, True, term)
 
     def local_gen_cm(self, nm):
@@ -276,9 +284,11 @@ class Tr:
                 return lean
         return None
 
+    def pos(self, node):
+        return '%s:%d:%d:%d:%d' % (self.file, node.lineno, node.col_offset, node.end_lineno, node.end_col_offset)
+
     def site(self, kind, node=None):
-        self.locs.append('%s:%d:%d:%d:%d' % (self.file, node.lineno, node.col_offset, node.end_lineno, node.end_col_offset)
-                         if node is not None and self.file else '-')
+        self.locs.append('@'.join([self.pos(node)] + list(reversed(self.call_stack))) if node is not None and self.file else '-')
         key = (self.fn, kind)
         self.counts[key] = self.counts.get(key, 0) + 1
         self.sites.append('%s|%s|%d' % (self.fn, kind, self.counts[key]))
@@ -302,50 +312,83 @@ class Tr:
             return None
         return self.types.get(v)
 
-    def flow(self, var, depth=0):
-        """names and attribute names mentioned by the expressions bound to local `var` in the current function
-        (through other locals and through the return expressions of same-class / same-module helpers, two levels)"""
+    # ---- def-use look-ups (for roles): contexts follow helper inlining, parameters are bound to the caller's arguments
+    def new_ctx(self, fn, params=None):
+        return {'fn': fn, 'params': params or {}}
+
+    def bind_params(self, node, cls, call, caller_ctx):
+        names = [a.arg for a in node.args.args]
+        static = any(name(d) == 'staticmethod' for d in node.decorator_list)
+        if cls is not None and not static and names and names[0] in ('self', 'cls'):
+            names = names[1:]
+        params = {}
+        for n, a in zip(names, call.args):
+            if isinstance(a, ast.Starred):
+                break
+            params[n] = (a, caller_ctx)
+        for k in call.keywords:
+            if k.arg in names:
+                params[k.arg] = (k.value, caller_ctx)
+        return params
+
+    def flow(self, var, ctx=None, depth=0):
+        """names and attribute names mentioned by what local `var` is bound to: through other locals, through the
+        returns of same-class / same-module helpers, and — for a parameter of an inlined helper — through the argument
+        the caller passes"""
         out = set()
-        if self.cur is None or depth > 2:
+        ctx = ctx or self.ctx
+        if ctx is None or ctx['fn'] is None or depth > 4:
             return out
-        for n in own_nodes(self.cur):
+        found = False
+        for n in own_nodes(ctx['fn']):
             if isinstance(n, ast.Assign) and any(isinstance(tg, ast.Name) and tg.id == var for tg in n.targets):
-                out |= self.mentions(n.value, depth)
+                found = True
+                out |= self.mentions(n.value, ctx, depth)
+        if not found and var in ctx['params']:
+            expr, pctx = ctx['params'][var]
+            out |= self.mentions(expr, pctx, depth + 1)
         return out
 
-    def mentions(self, expr, depth):
+    def mentions(self, expr, ctx, depth, follow=True):
         out = set()
-        for x in ast.walk(expr):
-            if isinstance(x, ast.Attribute):
-                out.add(x.attr)
-            elif isinstance(x, ast.Name):
-                out.add(x.id)
-                if depth < 2:
-                    out |= self.flow(x.id, depth + 1)
-            if isinstance(x, ast.Call) and depth < 2:
-                hn = self.helper_node(x.func)
-                if hn is not None:
-                    for r in own_nodes(hn[1]):
-                        if isinstance(r, ast.Return) and r.value is not None:
-                            for y in ast.walk(r.value):
-                                if isinstance(y, ast.Attribute):
-                                    out.add(y.attr)
-                                elif isinstance(y, ast.Name):
-                                    out.add(y.id)
+        if isinstance(expr, ast.Name):
+            out.add(expr.id)
+            if follow:
+                out |= self.flow(expr.id, ctx, depth + 1)
+        elif isinstance(expr, ast.Attribute):
+            out.add(expr.attr)
+            out |= self.mentions(expr.value, ctx, depth, follow)
+        elif isinstance(expr, ast.Call):
+            out |= self.mentions(expr.func, ctx, depth, follow)
+            hn = self.helper_node(expr.func)
+            if hn is not None and depth <= 3:
+                hctx = self.new_ctx(hn[1], self.bind_params(hn[1], hn[2], expr, ctx))
+                for r in own_nodes(hn[1]):
+                    if isinstance(r, ast.Return) and r.value is not None:
+                        out |= self.mentions(r.value, hctx, depth + 1)
+            else:
+                for a in list(expr.args) + [k.value for k in expr.keywords]:
+                    out |= self.mentions(a.value if isinstance(a, ast.Starred) else a, ctx, depth, follow=False)
+        elif isinstance(expr, ast.AST):
+            for c in ast.iter_child_nodes(expr):
+                if isinstance(c, ast.expr):
+                    out |= self.mentions(c, ctx, depth, follow)
         return out
 
     def role_of(self, e):
-        """role of a call site on the request path, by what is called (not by the local's name)"""
+        """role of a call site on the request path, by what is called (not by the local's name); decided in the
+        context of the LISTED function being translated (`root_fn`), also inside the helpers inlined into it"""
         f = e.func
+        root = self.root_fn or ''
         for a in list(e.args) + [k.value for k in e.keywords]:
             if isinstance(a, ast.Call) and name(a.func) in EVENT_ROLE:
                 return EVENT_ROLE[name(a.func)]
         if isinstance(f, ast.Name):
-            if self.fn == 'CallbackMethodsMixin._process_response_callbacks':
+            if root == 'CallbackMethodsMixin._process_response_callbacks':
                 return 1
-            if self.fn == 'CallbackMethodsMixin._process_finished_callbacks':
+            if root == 'CallbackMethodsMixin._process_finished_callbacks':
                 return 3
-            if self.fn.startswith('Router.'):
+            if root.startswith('Router.'):
                 if f.id == '_call_view':
                     return 10
                 m = self.flow(f.id)
@@ -375,9 +418,9 @@ class Tr:
                 return '(.scope %s)' % LEAN[TYPED_METHODS[(ty, f.attr)]]
             if f.attr in GLOBAL_METHODS:
                 return '(.scope %s)' % LEAN[GLOBAL_METHODS[f.attr]]
-        h = self.helper(f)
+        h = self.helper(f, e)
         if h is not None:
-            return '(.scope %s)' % h
+            return h
         s = self.site(nm, e)
         if nm in NO_RAISE:
             self.no_raise.append(s)
@@ -399,49 +442,52 @@ class Tr:
                     return self.cls.name + '.' + f.attr, n, self.cls
         return None
 
-    def helper(self, f):
-        """lean name when the callee is a local helper worth inlining: a function of the same module / method of the
-        same class whose skeleton (two levels deep) touches the stack or enters a listed function; helpers that do
-        neither stay opaque calls (and what they allocated is rolled back)"""
+    def helper(self, f, call=None):
+        """`(.scope <skeleton>)` when the callee is a local helper worth inlining: a function of the same module / method
+        of the same class (three levels deep) whose skeleton touches the stack, enters a listed function or contains a
+        call site with a role.  The helper is translated afresh at every call site (its sites are this caller's: the
+        same helper inlined into two functions gives two sets of sites, told apart by the calling position).  Helpers
+        that do none of that stay opaque calls and what their trial translation allocated is rolled back."""
         hn = self.helper_node(f)
         if hn is None:
             return None
         qual, node, cls = hn
         key = (self.file, qual)
         if qual in LEAN:
-            return LEAN[qual]
-        if key in self.helpers:
-            return self.helpers[key]
-        if key in self.in_progress or self.depth >= 3:
+            return '(.scope %s)' % LEAN[qual]
+        if key in self.in_progress or self.depth >= 3 or (key, self.root_fn) in self.dull:
             return None
         if any(isinstance(n, (ast.Yield, ast.YieldFrom)) for n in own_nodes(node)):
             return None
         snap = (len(self.sites), dict(self.counts), list(self.no_raise), list(self.unknowns), len(self.helper_defs),
-                dict(self.helpers), 0, dict(self.auto), dict(self.gen_plain))
-        saved = (self.fn, self.types, self.cls, self.cur)
+                dict(self.auto), dict(self.gen_plain), dict(self.loop_bodies))
+        saved = (self.fn, self.types, self.cls, self.cur, self.ctx)
         self.in_progress.add(key)
         self.depth += 1
+        if call is not None:
+            self.call_stack.append(self.pos(call))
+        self.ctx = self.new_ctx(node, self.bind_params(node, cls, call, saved[4]) if call is not None else {})
         self.fn, self.cls, self.cur = qual, cls, node
         self.types = self.infer_types(node, {})
         term = self.block(_body(node))
-        self.fn, self.types, self.cls, self.cur = saved
+        self.fn, self.types, self.cls, self.cur, self.ctx = saved
+        if call is not None:
+            self.call_stack.pop()
         self.depth -= 1
         self.in_progress.discard(key)
-        interesting = any(x in term for x in ('managerPush', 'managerPop', '(.scope ', 'withCM', '(hide_attrs ', '(route_prefix_context ', '(gen_'))
+        interesting = (any(x in term for x in ('managerPush', 'managerPop', '(.scope ', 'withCM', '(hide_attrs ', '(route_prefix_context ', '(gen_'))
+                       or any(k >= snap[0] for k in self.roles))
         if not interesting:
             del self.sites[snap[0]:]
             del self.locs[snap[0]:]
             self.roles = {k: v for k, v in self.roles.items() if k < snap[0]}
             self.counts, self.no_raise, self.unknowns = snap[1], snap[2], snap[3]
             del self.helper_defs[snap[4]:]
-            self.helpers = snap[5]
-            self.auto, self.gen_plain = snap[7], snap[8]
-            self.helpers[key] = None
+            self.auto, self.gen_plain, self.loop_bodies = snap[5], snap[6], snap[7]
+            self.dull.add((key, self.root_fn))
             return None
-        lean = 'h_' + ''.join(c if c.isalnum() else '_' for c in (self.file[:-3] + '_' + qual))
-        self.helpers[key] = lean
-        self.helper_defs.append((lean, qual, False, term))
-        return lean
+        self.helpers[key] = True
+        return '(.scope %s)' % term
 
     def ret_type(self, f):
         """'RequestContext' when the helper called as `f` returns one on every path"""
@@ -578,7 +624,7 @@ class Tr:
         if isinstance(s, ast.If):
             pre = self.expr(s.test)
             sid = self.site('if')
-            if self.fn.startswith('Router.') and any(isinstance(x, ast.Attribute) and x.attr == 'finished_callbacks' for x in ast.walk(s.test)):
+            if (self.root_fn or '').startswith('Router.') and any(isinstance(x, ast.Attribute) and x.attr == 'finished_callbacks' for x in ast.walk(s.test)):
                 self.roles[sid] = 11      # the router looks at the finished-callback deque (finish_request is reached)
             return self.seq(pre + ['(.ite %d %s %s)' % (sid, self.block(s.body, yb), self.block(s.orelse, yb))])
         if isinstance(s, ast.While):
@@ -586,11 +632,17 @@ class Tr:
                 return self.unknown('while with else/break/continue')
             t = self.expr(s.test)
             body = self.seq([self.block(s.body)] + self.expr(s.test))
-            return self.seq(t + ['(.loop %d %s)' % (self.site('while'), body)])
+            ls = self.site('while')
+            self.loop_bodies[ls] = body
+            return self.seq(t + ['(.loop %d %s)' % (ls, body)])
         if isinstance(s, ast.For):
             if s.orelse or self.has_jump(s.body):
                 return self.unknown('for with else/break/continue')
-            return self.seq(self.expr(s.iter) + ['(.loop %d %s)' % (self.site('for'), self.block(s.body))])
+            pre = self.expr(s.iter)
+            body = self.block(s.body)
+            ls = self.site('for')
+            self.loop_bodies[ls] = body
+            return self.seq(pre + ['(.loop %d %s)' % (ls, body)])
         if isinstance(s, ast.Try):
             body = self.block(s.body, yb)
             if s.handlers:
@@ -845,6 +897,8 @@ def generate(src_root):
         tr.cls = outer if isinstance(outer, ast.ClassDef) else None
         tr.types = {}
         tr.cur = fn
+        tr.root_fn = qual
+        tr.ctx = tr.new_ctx(fn)
         if fn is not None:
             inherited = tr.infer_types(outer, {}) if isinstance(outer, ast.FunctionDef) else {}
             tr.types = tr.infer_types(fn, inherited)
@@ -937,7 +991,8 @@ def generate(src_root):
     L.append('/-- sites of total constructors (%s) assumed not to raise -/' % ', '.join(sorted(NO_RAISE)))
     L.append('def noRaise : List Nat := [%s]' % ', '.join(map(str, tr.no_raise)))
     L.append('')
-    fin_site = [i for i, s in enumerate(tr.sites) if s.startswith('CallbackMethodsMixin._process_finished_callbacks|callback')]
+    fin_site = sorted(set([i for i, s in enumerate(tr.sites) if s.startswith('CallbackMethodsMixin._process_finished_callbacks|callback')]
+                          + [k for k, v in tr.roles.items() if v == 3]))
     L.append('/-- the calls inside `_process_finished_callbacks` (`callbacks.popleft()` and the finished callback itself) -/')
     L.append('def finishedCallbackSites : List Nat := [%s]' % ', '.join(map(str, fin_site)))
     L.append('')
@@ -947,7 +1002,7 @@ def generate(src_root):
     L.append(']')
     L.append('')
     modelled = (['%s:%s' % (f, q) for f, q, _l in FUNCS] + ['%s:%s' % k for k in tr.auto]
-                + ['%s:%s' % k for k, v in tr.helpers.items() if v])
+                + sorted('%s:%s' % k for k, v in tr.helpers.items() if v))
     L.append('/-- the functions whose skeletons are translated above: the listed ones and every module-level')
     L.append('`@contextmanager` helper a listed function enters with `with` (decided balanced around any body below) -/')
     L.append('def modelledOwners : List String := [')
@@ -999,8 +1054,13 @@ def generate(src_root):
     L.append('`if request.finished_callbacks` branch, the `while callbacks` loop and the callback call of')
     L.append('`_process_finished_callbacks` -/')
     L.append('def siteCloserIf : Nat := %d' % sid('prepare.closer|if|1'))
-    L.append('def siteFinWhile : Nat := %d' % sid('CallbackMethodsMixin._process_finished_callbacks|while|1'))
-    L.append('def siteFinCallback : Nat := %d' % sid('CallbackMethodsMixin._process_finished_callbacks|callback|1'))
+    fin_cb_sites = [k for k, v in sorted(tr.roles.items()) if v == 3]
+    fin_cb = fin_cb_sites[0] if fin_cb_sites else 0
+    fin_loops = [ls for ls, body in sorted(tr.loop_bodies.items()) if '(.call %d)' % fin_cb in body]
+    L.append('/-- the three sites were found -/')
+    L.append('def closerSitesKnown : Bool := %s' % ('true' if (fin_loops and fin_cb_sites and 'prepare.closer|if|1' in tr.sites) else 'false'))
+    L.append('def siteFinWhile : Nat := %d' % (fin_loops[0] if fin_loops else 0))
+    L.append('def siteFinCallback : Nat := %d' % fin_cb)
     L.append('')
     alld = []
     for lean, qual, is_gen, term in defs:
